@@ -371,7 +371,106 @@ def rule_f(ctx: Ctx) -> None:
                                            f"remapped onto the wrong copied nodes")
 
 
-RULES = [rule_ab, rule_c, rule_d, rule_e, rule_f]
+def _heap_pushes(fn: ast.AST) -> list[tuple[ast.Call, str, ast.Tuple]]:
+    return [(c, c.args[0].id, c.args[1]) for c in ast.walk(fn)
+            if isinstance(c, ast.Call) and (call_name(c) or "").split(".")[-1] == "heappush" and len(c.args) == 2 and isinstance(c.args[0], ast.Name) and isinstance(c.args[1], ast.Tuple)]
+
+
+def rule_g(ctx: Ctx) -> None:
+    ctx.rule("C20.g", "syntax-tree nodes are never ordered: every tuple pushed on a heap that carries nodes has, before its first node, an element that is unique per entry "
+                      "(len(<the heap>), a counter) — Expr.__lt__ is the builder overload that returns a truthy LT node, so entries that tie on their scores would be ordered by an "
+                      "arbitrary 'comparison' of nodes and the candidate matchings come off the heap in a non-positional order (spurious Move edits for equal trees)")
+    probe = ast.parse("def f(self):\n    h: list[tuple[float, exp.Expr]] = []\n    heappush(h, (-s, leaf))\n").body[0]
+    ctx.require(len(_heap_pushes(probe)) == 1, "positive control failed: heappush not recognised")
+    m = ctx.repo.module("sqlglot.diff")
+    n = 0
+    for f in m.funcs.values():
+        if ".<locals>." in f.qualname:
+            continue
+        ann: dict[str, list[str]] = {}
+        for st in ast.walk(f.node):
+            if isinstance(st, ast.AnnAssign) and isinstance(st.target, ast.Name):
+                a = st.annotation
+                # list[tuple[T0, T1, ...]]
+                if isinstance(a, ast.Subscript) and norm(a.value) in ("list", "t.List", "List") and isinstance(a.slice, ast.Subscript) and norm(a.slice.value) in ("tuple", "t.Tuple", "Tuple"):
+                    inner = a.slice.slice
+                    ann[st.target.id] = [norm(e) for e in (inner.elts if isinstance(inner, ast.Tuple) else [inner])]
+        for c, heap, tup in _heap_pushes(f.node):
+            n += 1
+            inst = f"{f.key}|heappush({heap}, ...)"
+            types = ann.get(heap)
+            if types is None or len(types) != len(tup.elts):
+                ctx.ok(inst + "|not decided: the heap's element types are not declared as list[tuple[...]] of matching arity", None)
+                continue
+            first_node = next((i for i, t_ in enumerate(types) if "exp." in t_ or t_.endswith("Expr") or t_.endswith("Expression")), None)
+            if first_node is None:
+                ctx.ok(inst, {"entries_carry_nodes": False})
+                continue
+            unique = [i for i, e in enumerate(tup.elts[:first_node])
+                      if (isinstance(e, ast.Call) and norm(e.func) == "len" and e.args and norm(e.args[0]) == heap) or (isinstance(e, ast.Call) and norm(e.func) == "next")]
+            if unique:
+                ctx.ok(inst, {"tie_breaker": norm(tup.elts[unique[0]]), "first_node_at": first_node})
+            else:
+                ctx.fail(m, c, f.key, c, f"the entries pushed on `{heap}` carry a node at position {first_node} and nothing unique before it ({', '.join(norm(e, 30) for e in tup.elts[:first_node])}): "
+                                         f"entries with equal scores are ordered by comparing nodes, which builds LT expressions instead of ordering — equal trees get crosswise matches and a non-empty delta")
+    ctx.count("heap_pushes", n)
+    ctx.min_instances("heap_pushes", n, 1)
+
+
+def rule_h(ctx: Ctx) -> None:
+    ctx.rule("C20.h", "two-node edits pair only matched nodes: in sqlglot/diff.py every Keep / Update / Move is built from a source node looked up in the source index and the target "
+                      "node looked up in the target index under the key the matching assigns to it (`matchings[key]`, or the paired variable of `for k, v in matchings.items()`) — "
+                      "pairing nodes by position in two traversals assumes that equal trees list their nodes in the same order, which argument insertion order breaks")
+    m = ctx.repo.module("sqlglot.diff")
+    n = 0
+    for f in m.funcs.values():
+        if ".<locals>." in f.qualname:
+            continue
+        assigns: dict[str, ast.AST] = {}
+        for st in ast.walk(f.node):
+            if isinstance(st, ast.Assign) and len(st.targets) == 1 and isinstance(st.targets[0], ast.Name):
+                assigns.setdefault(st.targets[0].id, st.value)
+        pairs: set[tuple[str, str]] = set()
+        for lp in ast.walk(f.node):
+            if isinstance(lp, (ast.For, ast.comprehension)) and isinstance(lp.target, ast.Tuple) and len(lp.target.elts) == 2 and all(isinstance(e, ast.Name) for e in lp.target.elts) \
+                    and isinstance(lp.iter, ast.Call) and isinstance(lp.iter.func, ast.Attribute) and lp.iter.func.attr == "items" and "matching" in norm(lp.iter.func.value):
+                pairs.add((lp.target.elts[0].id, lp.target.elts[1].id))
+
+        def lookup(e: ast.AST) -> tuple[str, ast.AST] | None:
+            if isinstance(e, ast.Name) and e.id in assigns:
+                e = assigns[e.id]
+            if isinstance(e, ast.Subscript) and norm(e.value) in ("self._source_index", "self._target_index"):
+                return norm(e.value), e.slice
+            return None
+
+        for c in ast.walk(f.node):
+            if not (isinstance(c, ast.Call) and isinstance(c.func, ast.Name) and c.func.id in ("Keep", "Update", "Move")):
+                continue
+            n += 1
+            ops = list(c.args) + [k.value for k in c.keywords if k.arg in ("source", "target")]
+            inst = f"{f.key}|{norm(c, 70)}"
+            if len(ops) != 2:
+                ctx.fail(m, c, f.key, c, f"`{norm(c, 70)}`: cannot identify the source and target operands of this edit")
+                continue
+            src, tgt = lookup(ops[0]), lookup(ops[1])
+            ok = False
+            if src and tgt and src[0] == "self._source_index" and tgt[0] == "self._target_index":
+                sk, tk = src[1], tgt[1]
+                if isinstance(tk, ast.Subscript) and "matching" in norm(tk.value) and norm(tk.slice) == norm(sk):
+                    ok = True
+                elif isinstance(sk, ast.Name) and isinstance(tk, ast.Name) and (sk.id, tk.id) in pairs:
+                    ok = True
+            if ok:
+                ctx.ok(inst, {"edit": norm(c, 70), "paired_through": "matchings"})
+            else:
+                ctx.fail(m, c, f.key, c, f"`{norm(c, 70)}` pairs two nodes that are not related through the matching (source index entry and the target index entry under "
+                                         f"`matchings[key]`): e.g. pairing the nodes of two traversals by position reports Keep for nodes of different types when equal trees hold "
+                                         f"their arguments in a different insertion order")
+    ctx.count("two_node_edits", n)
+    ctx.min_instances("two_node_edits", n, 4)
+
+
+RULES = [rule_ab, rule_c, rule_d, rule_e, rule_f, rule_g, rule_h]
 EXPLANATION = (
     "Partition typestate of the Change Distiller decided structurally: co-location of matching_set.add with both "
     "unmatched-set removals, the both-unmatched proof (membership or snapshot+pop+break), same-type dominance (also "
